@@ -89,7 +89,7 @@ type SCplx complex64
 // which sources can be given a leaf of this kind at all (the others are still run: they must not panic)
 func envSupports(kind string) bool {
 	switch kind {
-	case "time", "durs", "structs", "pdurs", "ip", "uptr", "nkset", "nkmss":
+	case "time", "durs", "structs", "pdurs", "ip", "uptr", "nkset", "nkmss", "dkmap":
 		return false // (uintptr: the text parser has no such kind; the variable is still supplied, it must not panic)
 	}
 	return true
@@ -97,7 +97,7 @@ func envSupports(kind string) bool {
 
 func flagSupports(kind string) bool {
 	switch kind {
-	case "durs", "structs", "nstrs", "nmap", "lnamed", "mnamed", "knamed", "pdurs", "nkset", "nkmss":
+	case "durs", "structs", "nstrs", "nmap", "lnamed", "mnamed", "knamed", "pdurs", "nkset", "nkmss", "dkmap":
 		return false // no flag is registered for such a leaf
 	}
 	return true
@@ -105,7 +105,7 @@ func flagSupports(kind string) bool {
 
 func docSupports(kind string) bool {
 	switch kind {
-	case "named", "c64", "knamed", "ncplx", "nkset", "nkmss":
+	case "named", "c64", "knamed", "ncplx", "nkset", "nkmss", "dkmap":
 		return false // not expressible alike in all four formats
 	}
 	return true
@@ -230,6 +230,8 @@ func kindType(k string) reflect.Type {
 		return reflect.TypeOf(map[string]SCount(nil))
 	case "knamed":
 		return reflect.TypeOf(map[SName]string(nil))
+	case "dkmap": // a map keyed by a type that decoders substitute (durations), with values that are not substituted
+		return reflect.TypeOf(map[time.Duration]string(nil))
 	case "nkset":
 		return reflect.TypeOf(map[SName]struct{}(nil))
 	case "nkmss":
@@ -344,8 +346,9 @@ func leafValue(kind string, id int) (reflect.Value, string, interface{}) {
 	case "structs":
 		w := time.Date(2021, 3, 4, 5, 6, id%60, 0, time.UTC)
 		ws := w.Format(time.RFC3339)
-		return reflect.ValueOf([]SItem{{N: id, W: w}, {N: id + 1, W: w}}), "",
-			[]interface{}{map[string]interface{}{"n": id, "w": ws}, map[string]interface{}{"n": id + 1, "w": ws}}
+		// (three elements: a format library that grows its slices append-style leaves spare capacity behind them)
+		return reflect.ValueOf([]SItem{{N: id, W: w}, {N: id + 1, W: w}, {N: id + 2, W: w}}), "",
+			[]interface{}{map[string]interface{}{"n": id, "w": ws}, map[string]interface{}{"n": id + 1, "w": ws}, map[string]interface{}{"n": id + 2, "w": ws}}
 	case "f32":
 		return reflect.ValueOf(float32(id) + 0.25), fmt.Sprintf("%d.25", id), float64(id) + 0.25
 	case "c64":
@@ -361,6 +364,8 @@ func leafValue(kind string, id int) (reflect.Value, string, interface{}) {
 		return reflect.ValueOf(map[string]SCount{fmt.Sprintf("k%d", id): SCount(id)}), fmt.Sprintf(`"k%d":%d`, id, id), map[string]interface{}{fmt.Sprintf("k%d", id): id}
 	case "knamed":
 		return reflect.ValueOf(map[SName]string{SName(fmt.Sprintf("k%d", id)): "v"}), fmt.Sprintf(`"k%d":"v"`, id), map[string]interface{}{fmt.Sprintf("k%d", id): "v"}
+	case "dkmap":
+		return reflect.ValueOf(map[time.Duration]string{time.Duration(id) * time.Second: "v"}), "", map[string]interface{}{fmt.Sprintf("%ds", id): "v"}
 	case "nkset": // sets / string-slice maps keyed by a user-defined string type
 		return reflect.ValueOf(map[SName]struct{}{SName(fmt.Sprintf("m%d", id)): {}}), fmt.Sprintf(`"m%d"`, id), []interface{}{fmt.Sprintf("m%d", id)}
 	case "nkmss":
@@ -1344,6 +1349,14 @@ func (r *srcRun) countSet(v reflect.Value) int {
 	return n
 }
 
+var durSubMangler = func() transform.Mangler {
+	m, err := transform.NewSingleTypeSubstitutionMangler[time.Duration, int64]()
+	if err != nil {
+		panic(err)
+	}
+	return m
+}()
+
 // the bare transformer: an empty translated value reverses to an entirely unset original
 func (r *srcRun) runEmptyReverse() {
 	chains := map[string][]transform.Mangler{
@@ -1352,6 +1365,7 @@ func (r *srcRun) runEmptyReverse() {
 		"stringcast":                 {transform.DefaultFlattenMangler(), &transform.StringCastingMangler{}},
 		"anonflatten":                {&transform.AnonymousFlattenMangler{}},
 		"anonflatten+alias+setslice": {&transform.AnonymousFlattenMangler{}, transform.NewAliasMangler("dials"), &transform.SetSliceMangler{}},
+		"dursub":                     {durSubMangler}, // the substitution the JSON and Cue decoders apply to durations
 	}
 	for name, ms := range chains {
 		name, ms := name, ms
@@ -1390,7 +1404,7 @@ func (r *srcRun) runEmptyReverse() {
 				}
 			}
 			// and a translated value with every reachable leaf filled reverses to a value with as many leaves set
-			if strings.HasPrefix(name, "anonflatten") || name == "alias+setslice" {
+			if strings.HasPrefix(name, "anonflatten") || name == "alias+setslice" || name == "dursub" {
 				tf2 := transform.NewTransformer(r.ptyp, ms...)
 				val2, err := tf2.Translate()
 				if err != nil {
